@@ -312,6 +312,16 @@ func checkC16(c *hx.Checker) {
 			}
 			jobs = append(jobs, job{bm, b})
 		}
+		// larger batches beyond the exhaustive bound (sizes 5, 8, 17)
+		if bm.Name != "sample:ndm" {
+			for _, n := range []int{5, 8, 17} {
+				b := make([]int, n)
+				for i := range b {
+					b[i] = (i*2 + i/3) % pool
+				}
+				jobs = append(jobs, job{bm, b})
+			}
+		}
 	}
 	c.ParallelFor(len(jobs), func(i int) {
 		j := jobs[i]
